@@ -673,3 +673,52 @@ func FromValue(v interface{}) ([]byte, bool) {
 	b, ok := v.([]byte)
 	return b, ok
 }
+
+// LongKeys returns keys of several hundred bytes that share a long common prefix: two differ only in their last byte, one is a strict
+// prefix of the others, one ends in 0x00, one in 0xff; the prefix contains 0x00, 0x80 and 0xff bytes. Small alphabets of one- and
+// two-byte keys never exercise code that treats long keys, key length or particular byte values specially.
+func LongKeys() [][]byte {
+	p := make([]byte, 300)
+	for i := range p {
+		p[i] = byte(i*7 + 3)
+	}
+	p[0], p[100], p[200], p[299] = 0x00, 0x80, 0xff, 0x41
+	mk := func(n int, last ...byte) []byte { return append(append([]byte{}, p[:n]...), last...) }
+	return [][]byte{mk(300, 'A'), mk(300, 'B'), mk(300), mk(300, 0x00), mk(300, 0xff)}
+}
+
+// WithLongKeys replaces, in one history out of `oneIn`, the last min(3, len-1) keys of the alphabet by long keys.
+func WithLongKeys(rng *rand.Rand, keys [][]byte, oneIn int) [][]byte {
+	if len(keys) < 3 || rng.Intn(oneIn) != 0 {
+		return keys
+	}
+	out := append([][]byte{}, keys...)
+	lk := LongKeys()
+	rng.Shuffle(len(lk), func(i, j int) { lk[i], lk[j] = lk[j], lk[i] })
+	n := 3
+	if len(out)-1 < n {
+		n = len(out) - 1
+	}
+	for i := 0; i < n; i++ {
+		out[len(out)-1-i] = lk[i]
+	}
+	return out
+}
+
+// LongValue is a value of a thousand bytes (with 0x00 / 0xff inside).
+func LongValue() []byte {
+	v := make([]byte, 1000)
+	for i := range v {
+		v[i] = byte(i * 13)
+	}
+	v[0], v[999] = 0xff, 0x00
+	return v
+}
+
+// LongHistory multiplies the number of operations by 6 in one history out of 40.
+func LongHistory(rng *rand.Rand, nops int) int {
+	if rng.Intn(40) == 0 {
+		return nops * 6
+	}
+	return nops
+}
